@@ -89,12 +89,12 @@ example :
     intro e he
     simp only [prog, List.mem_cons, List.not_mem_nil, or_false] at he
     rcases he with rfl | rfl
-    · exact ⟨hint, hval, rfl, ⟨.name _, trivial, by intro e h; cases h; exact .const _ _ _ _ (by decide)⟩, by intro it h; cases h⟩
-    · refine ⟨hint, hval, rfl, .fn0 _ (.name _) rfl, trivial, ?_⟩
+    · exact ⟨hint, hval, rfl, ⟨.name _, by intro e h; cases h; exact .const _ _ _ _ (by decide)⟩, by intro it h; cases h⟩
+    · refine ⟨hint, hval, rfl, .fn0 _ (.name _) rfl, ?_⟩
       intro it hit
       simp only [List.mem_cons, List.not_mem_nil, or_false] at hit
       rcases hit with rfl | rfl
-      · exact ⟨hint, hval, rfl, ⟨.name _, trivial, by intro e h; cases h; exact .id _ _⟩, by intro it h; cases h⟩
+      · exact ⟨hint, hval, rfl, ⟨.name _, by intro e h; cases h; exact .id _ _⟩, by intro it h; cases h⟩
       · exact StmtSkel.WFS.retSome _ (.bin _ 8 _ _ _ _ (by decide) (by omega) (.id _ _) (.const _ _ _ _ (by decide)))
   exact parse_translation_unit prog hw 200 (by decide)
 
@@ -135,9 +135,9 @@ example :
     intro e he
     simp only [prog, List.mem_singleton] at he
     subst he
-    refine ⟨hint, hval, rfl, ⟨⟨hint, hval, rfl, .name _, trivial⟩, ?_⟩, ?_⟩
+    refine ⟨hint, hval, rfl, ⟨⟨hint, hval, rfl, .name _⟩, ?_⟩, ?_⟩
     · intro p hp; simp only [List.mem_singleton] at hp; subst hp
-      refine ⟨by simp [SpecToks, quals3, typeSpecSimple, isTypeTok], ?_, rfl, .ptr _ _ (by simp) (by simp) (.name _) rfl, trivial⟩
+      refine ⟨by simp [SpecToks, quals3, typeSpecSimple, isTypeTok], ?_, rfl, .ptr _ _ (by simp) (by simp) (.name _) rfl⟩
       intro t ht; simp only [List.mem_cons, List.not_mem_nil, or_false] at ht
       rcases ht with rfl | rfl <;> exact ⟨by decide, by decide⟩
     · intro it hit; simp only [List.mem_singleton] at hit; subst hit
